@@ -326,6 +326,21 @@ def clock_lint(ctx, rep, R):
                     if isinstance(n, ast.Attribute) and utext(n).startswith("datetime.datetime"):
                         rep.violation(R, "%s: module-level alias of the clock: %s" % (m.relpath, utext(s)[:80]), None, None,
                                       "captured before the patch is installed")
+    # ... nor a function of these modules keeping the clock function itself as a value (`x = datetime.datetime.utcnow`):
+    # the value is whatever `datetime.datetime` was at that moment - the real class whenever the object is
+    # built outside the patch (strategies are constructed before run() installs it)
+    n_ref = 0
+    for f in prog.all_functions():
+        if f.module.name not in mods:
+            continue
+        called = {id(c.func) for c in walk_calls(f.node.body)}
+        for n in walk_nodes(f.node.body, ast.Attribute):
+            if utext(n) in ("datetime.datetime.utcnow", "datetime.datetime.now", "datetime.datetime.today", "time.time"):
+                n_ref += 1
+                if id(n) not in called:
+                    rep.violation(R, "clock function kept as a value instead of being called: " + key(f, n), f, n,
+                                  "an object built outside the simulated-clock patch would keep reading the wall clock")
+    rep.floor(R, "references to the clock functions in simulation modules", n_ref, 15)
     for f in funcs:
         a = f.node.args
         for d in list(a.defaults) + [x for x in a.kw_defaults if x is not None]:
@@ -422,4 +437,8 @@ MUTANTS = [
     dict(id="c07-handler-reads-new-book", file="flumine/execution/simulatedexecution.py", func="SimulatedExecution.execute_place",
          old="        market = self.flumine.markets.markets[order_package.market_id]\n", new="        market = order_package.market\n",
          expect=["R1"], why="handler not bound to the stored book"),
+    dict(id="c07-clock-kept-as-value", file="flumine/strategy/runnercontext.py", func="RunnerContext.reset",
+         old="        self.datetime_last_reset = datetime.datetime.utcnow()",
+         new="        clock = datetime.datetime.utcnow\n        self.datetime_last_reset = clock()", expect=["R5"],
+         why="the clock function kept as a value (here local, at construction it would outlive the patch)"),
 ]
